@@ -59,6 +59,26 @@ func (c *Compiler) validateAllGroupings(m parse.Node, n parse.Node) error {
 	return nil
 }
 
+// usesUnder returns every uses statement that expanding n would apply: those
+// directly under n and under any of its descendants.  Groupings defined
+// inside n are not descended into - they only matter where they are used,
+// and are validated in their own right by validateGroupingsWalk.
+func usesUnder(n parse.Node) []parse.Node {
+	var out []parse.Node
+	for _, ch := range n.Children() {
+		switch ch.Type() {
+		case parse.NodeGrouping:
+			continue
+		case parse.NodeUses:
+			out = append(out, ch)
+		}
+		out = append(out, usesUnder(ch)...)
+	}
+	return out
+}
+
+// group_map holds the groupings on the current chain of uses statements:
+// meeting one of them again means the chain is a cycle.
 func (c *Compiler) validateGrouping(
 	m parse.Node,
 	g parse.Node,
@@ -69,7 +89,8 @@ func (c *Compiler) validateGrouping(
 	}
 
 	group_map[g.Name()] = true
-	for _, u := range g.ChildrenByType(parse.NodeUses) {
+	defer delete(group_map, g.Name())
+	for _, u := range usesUnder(g) {
 		gname := u.ArgIdRef()
 		mod, err := u.GetModuleByPrefix(
 			gname.Space, c.modules, c.skipUnknown)
@@ -83,7 +104,7 @@ func (c *Compiler) validateGrouping(
 			continue
 		}
 
-		ug, ok := g.LookupGrouping(gname.Local)
+		ug, ok := u.LookupGrouping(gname.Local)
 		if !ok {
 			return fmt.Errorf(
 				"Unknown grouping (grouping %s) referenced from grouping %s",
